@@ -49,12 +49,12 @@ type Options struct {
 	// the default choice (index 0) at no more than DevBound scheduling points, whether the switch is free or not.
 	// It is the bound used for scenarios whose free switches alone are too many (worker pile-ups in the fetcher).
 	DevBound int
-	Deadline    *run.Deadline
-	RaceLog     string // GORACE log_path prefix; empty = no race monitor
-	Shard       int
-	Shards      int
-	Slot        int
-	Property    string
+	Deadline *run.Deadline
+	RaceLog  string // GORACE log_path prefix; empty = no race monitor
+	Shard    int
+	Shards   int
+	Slot     int
+	Property string
 }
 
 type Stats struct {
